@@ -351,7 +351,7 @@ class T3World(World):
     kind = "tt3"
 
     def __init__(self, sx, nbr, nbw, nmaxb, oldlen=0, extra=2, emulated=False,
-                 ic_code=0xEE, writef=0x00, rwflag=0x01, fill=None, standard=False):
+                 ic_code=0xEE, writef=0x00, rwflag=0x01, fill=None, standard=False, pmm_tail=None):
         self.sx = sx
         nblk = 1 + nmaxb + extra
         mem = [None] * (nblk * 16)
@@ -367,7 +367,7 @@ class T3World(World):
         self.old = sx.mkbytes(mem[16:16 + oldlen], False)
         self.area = set(range(0, (1 + nmaxb) * 16))
         idm = [0x02, 0xFE, 1, 2, 3, 4, 5, 6]
-        pmm = [0x03, ic_code, 0x4B, 0x02, 0x4F, 0x49, 0x93, 0xFF]
+        pmm = [0x03, ic_code] + list(pmm_tail or [0x4B, 0x02, 0x4F, 0x49, 0x93, 0xFF])
         if emulated:
             self.kind = "tt3emu"
             self.sim = tags.Tt3EmuSim(mem, idm, pmm)
